@@ -331,3 +331,58 @@ def numpy_removed_api(ctx: Ctx) -> None:
     if not any(isinstance(a, ast.Attribute) and a.attr in NUMPY_REMOVED for a in ast.walk(fixture)):
         raise AnalysisError('positive fixture of I.numpy-removed-api no longer matches')
     ctx.ok(R, 'core.<all np attributes>', None, f'{n} references to attributes of np scanned; none is in the removed-API table (fixture matched)', key='scan', file='static_frame/core')
+
+
+FLOOR_OHT = 2
+
+
+def optional_hashable_tests(ctx: Ctx, kinds: tp.Sequence[str] = ('Hashable',)) -> None:
+    R = 'I.optional-hashable-identity-test'
+    ctx.rule(R, 'a parameter that takes a label (annotated tp.Hashable) and defaults to None is told apart from "not given" by identity '
+             '(`p is None` / `p is not None`), never by truthiness: 0, "", False and () are legitimate labels, and a truthiness test silently treats them as absent '
+             '(`relabel_level_add(index=0)` adds nothing; a Quilt over a Bus label 0 loses that level)', floor=FLOOR_OHT)
+    prog = ctx.prog
+    n = 0
+    for f in prog.all_funcs():
+        if isinstance(f.node, ast.Lambda):
+            continue
+        a = f.node.args
+        allargs = a.posonlyargs + a.args + a.kwonlyargs
+        defaults = [None] * (len(a.posonlyargs + a.args) - len(a.defaults)) + list(a.defaults) + list(a.kw_defaults)
+        cand: tp.Set[str] = set()
+        for arg, d in zip(allargs, defaults):
+            ann = norm(arg.annotation) if arg.annotation is not None else ''
+            if isinstance(d, ast.Constant) and d.value is None and any(kd in ann for kd in kinds) \
+                    and not any(w in ann for w in ('Iterable', 'Callable', 'Mapping', 'Sequence', 'Iterator', 'List', 'Tuple[')):
+                cand.add(arg.arg)
+        if not cand:
+            continue
+        # a test counts while the name still holds the argument: up to (and including) the first statement that rebinds it
+        first_rebind: tp.Dict[str, int] = {}
+        for s in walk_local(f.node):
+            if isinstance(s, (ast.Assign, ast.AugAssign)):
+                for t in (s.targets if isinstance(s, ast.Assign) else [s.target]):
+                    if isinstance(t, ast.Name) and t.id in cand:
+                        first_rebind[t.id] = min(first_rebind.get(t.id, 10 ** 9), s.end_lineno or s.lineno)
+        for node in walk_local(f.node):
+            if not hasattr(node, 'lineno'):
+                continue
+            atoms: tp.List[ast.expr] = []
+            if isinstance(node, (ast.If, ast.IfExp, ast.While)):
+                atoms.append(node.test)
+            elif isinstance(node, ast.BoolOp):
+                atoms.extend(node.values)
+            elif isinstance(node, ast.UnaryOp) and isinstance(node.op, ast.Not):
+                atoms.append(node.operand)
+            elif isinstance(node, ast.Compare) and len(node.ops) == 1 and isinstance(node.ops[0], (ast.Is, ast.IsNot)) and isinstance(node.left, ast.Name) \
+                    and node.left.id in cand and isinstance(node.comparators[0], ast.Constant) and node.comparators[0].value is None \
+                    and node.lineno <= first_rebind.get(node.left.id, 10 ** 9):
+                n += 1
+                ctx.ok(R, f, node, f'`{norm(node)}`', key=f'{f.qualname.split(".", 1)[1]}:{node.left.id}:identity')
+                continue
+            for t in atoms:
+                if isinstance(t, ast.Name) and t.id in cand and node.lineno <= first_rebind.get(t.id, 10 ** 9):
+                    n += 1
+                    ctx.bad(R, f, node, f'`{t.id}` (a label / name, default None) is tested by truthiness in `{norm(node)[:70]}`: the labels 0, "", False are treated as not given',
+                            key=f'{f.qualname.split(".", 1)[1]}:{t.id}:truthiness')
+    ctx.require(n >= FLOOR_OHT, "tests of optional label / name parameters")
